@@ -94,6 +94,8 @@ def kmsg_path_ignores_silencing(ctx):
 
 
 def run(ctx):
+    from .C19 import stat_update_is_applied_before_return
+    stat_update_is_applied_before_return(ctx, "C17")
     from .C06 import action_context_is_replaced_whole
     action_context_is_replaced_whole(ctx, "C17")
     from .C03 import kernel_kill_counts_only_a_populated_victim
